@@ -189,9 +189,18 @@ package goose
 //@ func (Ctx).constSpec (ctx, spec)
 //@   may_reject
 //@   ensures [constants have a value] len(spec.Values) >= 1
+// The integer types goose models: 64-bit (uint64, and uint/int which it treats as such), uint32, uint8
+// and untyped constants. A literal of any other type (uint16, int8, a float...) has no GooseLang
+// literal of its width and must be rejected, not emitted as the 64-bit look-alike.
+//@ ghost func bkind(t types.Type) types.BasicKind = pure(types.BasicKind, "(*go/types.Basic).Kind", pure(types.Type, "(go/types.Type).Underlying", t).(*types.Basic))
+//@ ghost func modelledint(t types.Type) bool = typeis(pure(types.Type, "(go/types.Type).Underlying", t), *types.Basic) && (bkind(t) == types.Uint || bkind(t) == types.Int || bkind(t) == types.Uint64 || bkind(t) == types.UntypedInt || bkind(t) == types.Uint32 || bkind(t) == types.Uint8)
+//@ func getIntegerType (t)
+//@   ensures [only the modelled integer types are integer types] result.1 ==> modelledint(t)
+//@   ensures [anything else has no width] !result.1 ==> result.0.width == 0 && !result.0.isUntyped
 //@ func (Ctx).basicLiteral (ctx, e)
 //@   may_reject
 //@   ensures [only string and integer literals] e.Kind == token.STRING || e.Kind == token.INT
+//@   ensures [an integer literal is translated only at a modelled integer type] e.Kind == token.INT ==> modelledint(pure(types.Type, "(*go/types.Info).TypeOf", ctx.info, ast.Expr(e)))
 //@   also C05
 //@   ensures [string literals contain no double quote] e.Kind == token.STRING ==> !contains(pure(string, "go/constant.StringVal", ctx.info.Types[ast.Expr(e)].Value), "\"")
 //@ func (Ctx).exprSpecial (ctx, e, isSpecial)
